@@ -78,6 +78,29 @@ def px_table(rec, case):
     return px
 
 
+def range_days(case):
+    """the Monday-Friday dates of the session's range, from the configuration alone (generative date_range semantics)"""
+    s, e = case['start'], case['end']
+    if e < s:
+        return []
+    d, tod = s // 86400, s % 86400
+    out = []
+    while d * 86400 + tod <= e:
+        if is_bday(d):
+            out.append(d)
+        d += 1
+    return out
+
+
+def mids_at(rec, t):
+    """the data handler's mid prices recorded while the event at `t` was being processed"""
+    out = {}
+    for r in rec.get('reads', []):
+        if r[0] == t and r[1] == t and r[3] in ('mid', 'bid_ask', 'bid', 'ask'):
+            out[r[2]] = r[4]
+    return out
+
+
 def burn_ok(case, t):
     return case.get('burn') is None or t >= case['burn']
 
@@ -149,7 +172,7 @@ def py_reference(case, rec):
                 tgt[a] = int(tr / p)
         return [(a, tgt[a] - hold.get(a, 0)) for a in assets if tgt[a] - hold.get(a, 0) != 0]
 
-    days = sorted(set(t // 86400 for t, k in rec['clock']))
+    days = range_days(case)
     for d in days:
         to, tc = d * 86400 + OPEN, d * 86400 + CLOSE
         if pending:
@@ -297,8 +320,12 @@ def check_c14(case, rec, m, tally):
     mism, oracle = [], []
     if rec['construct'] != 'ok':
         return mism, oracle, 'skipped'
-    clock = [t for t, k in rec['clock']]
-    closes = [t for t, k in rec['clock'] if k == 'market_close']
+    days = range_days(case)
+    clock = sorted([d * 86400 + OPEN for d in days] + [d * 86400 + CLOSE for d in days])
+    closes = [d * 86400 + CLOSE for d in days]
+    if [t for t, k in rec['clock']] != clock:
+        oracle.append(dict(what='the session clock differs from open/close events on the Monday-Friday dates of [start, end]: extra %r, missing %r' % (
+            [t for t, k in rec['clock'] if t not in clock][:4], [t for t in clock if t not in [x for x, k in rec['clock']]][:4]), key='session-clock'))
     sched = set(rec['schedule'])
     limit = rec['err'][0] if rec['err'] is not None else None
 
@@ -342,9 +369,10 @@ def check_c14(case, rec, m, tally):
             break
         mv = 0.0
         ok = True
+        mids = mids_at(rec, t)
         for a, q in c['held']:
-            p = px(t, a)
-            if p is None:
+            p = mids.get(a)
+            if p is None or math.isnan(p):
                 ok = False
                 break
             mv += p * q
@@ -428,7 +456,7 @@ def check_c07(case, rec, rec2, cut_day):
     oracle = []
     if rec['construct'] != 'ok':
         return oracle
-    bad = [(now, q, a) for (now, q, a) in rec.get('reads', []) if now is not None and q != now]
+    bad = [(r[0], r[1], r[2]) for r in rec.get('reads', []) if r[0] is not None and r[1] != r[0]]
     if bad:
         oracle.append(dict(what='price read at query time %d while processing the event at %d (asset %s); %d such reads' % (
             bad[0][1], bad[0][0], bad[0][2], len(bad)), key='read-not-at-event-time' if bad[0][1] > bad[0][0] else 'read-at-earlier-time'))
@@ -482,10 +510,12 @@ def check_c16(case, rec):
                 oracle.append(dict(what='close %d, signal %s: observations for %r, universe members so far %r' % (
                     t, n, sorted(a for a, p in got), sorted(tracked)), key='one-observation-per-asset-per-day'))
                 return oracle, 'checked'
+            mids = mids_at(rec, t)
             for a, p in got:
-                want = px(t, a)
-                if (want is None) != math.isnan(p) or (want is not None and f2b(want) != f2b(p)):
-                    oracle.append(dict(what='close %d: %s fed %r, that day\'s close is %r' % (t, a, p, want), key='observation-is-the-close'))
+                want = mids.get(a)
+                if want is None or (math.isnan(want) != math.isnan(p)) or (not math.isnan(want) and f2b(want) != f2b(p)):
+                    oracle.append(dict(what='close %d: %s fed %r, the data handler\'s price for that close is %r' % (t, a, p, want),
+                                       key='observation-is-the-close'))
                     return oracle, 'checked'
     if rec['err'] is None and rec.get('warmup') != len(closes):
         oracle.append(dict(what='warmup %r after %d closes' % (rec.get('warmup'), len(closes)), key='warmup'))
@@ -579,8 +609,25 @@ def check_c18(case, rec, hash_seeds, rng):
     from qstrader.data.daily_bar_csv import CSVDailyBarDataSource
     from common import ts
     oracle = []
-    d0 = k7_real.digest(rec)[0]
-    runs = {'first': d0}
+    # baseline: the run in a fresh interpreter (first hash seed); everything else is compared with it
+    with tempfile.NamedTemporaryFile('w', suffix='.json', delete=False) as f:
+        json.dump(case, f)
+        path = f.name
+    runs = collections.OrderedDict()
+    try:
+        for hs in hash_seeds:
+            runs['fresh-interpreter-hashseed-%d' % hs] = sub_digest((path, hs))
+    finally:
+        os.unlink(path)
+    d0 = runs['fresh-interpreter-hashseed-%d' % hash_seeds[0]]
+    runs['first-run-of-this-check'] = k7_real.digest(rec)[0]
+    # an unrelated session in the same process first: same tickers and dates, different prices and adjustment, own objects
+    other = dict(case, adjust=not case.get('adjust', True),
+                 market={s_: [[r[0]] + [None if x is None else round(x * 1.7 + 3.0, 4) for x in r[1:]] for r in rows]
+                         for s_, rows in case['market'].items()})
+    k7_real.run_session(other)
+    rec2b = k7_real.run_session(case)
+    runs['after-an-unrelated-session-with-the-same-tickers'] = k7_real.digest(rec2b)[0]
     rec2 = k7_real.run_session(case)
     runs['same-process-again'] = k7_real.digest(rec2)[0]
     d = tempfile.mkdtemp(prefix='qsv_k7_')
@@ -601,19 +648,12 @@ def check_c18(case, rec, hash_seeds, rng):
         runs['source-reused-second-session'] = k7_real.digest(r4)[0]
     finally:
         shutil.rmtree(d, ignore_errors=True)
-    with tempfile.NamedTemporaryFile('w', suffix='.json', delete=False) as f:
-        json.dump(case, f)
-        path = f.name
-    try:
-        for hs in hash_seeds:
-            runs['fresh-interpreter-hashseed-%d' % hs] = sub_digest((path, hs))
-    finally:
-        os.unlink(path)
     for k, v in runs.items():
         if v.startswith('ERROR'):
-            raise RuntimeError('sub-process run failed: ' + v)
+            from common import Infra
+            raise Infra('sub-process run failed: ' + v)
         if v != d0:
-            oracle.append(dict(what='run "%s" differs from the first run (digests %s.. vs %s..)' % (k, v[:10], d0[:10]), key='differs:' + k.split('-hashseed')[0]))
+            oracle.append(dict(what='run "%s" differs from the run in a fresh interpreter (digests %s.. vs %s..)' % (k, v[:10], d0[:10]), key='differs:' + k.split('-hashseed')[0]))
     return oracle, len(runs)
 
 
